@@ -80,7 +80,7 @@ def run():
     fl = chk.stage("function-level converter", converter_cases, r, quick, only=("vs2ps", "df2md", "v2p")) or dict(n=0, dis=[], keys=set(), samples=[], fails_c20=[], fails_c11=[])
     chk.corr("function-level values2positions / dataframe2memory_dict / value2position vs converter.py", fl["n"], fl["dis"], fl["keys"], fl["samples"])
     chk.monitor("loader key == wrapper key on members of the space (any order)", fl["n"], fl["fails_c11"])
-    specs = scenarios(r, 100 if quick else 1000)
+    specs = scenarios(r, C.T(100, 1000))
     fails = D.run_specs(chk, "driver-level warm-started memory vs _memory.py / search.py", specs, monitor)
     chk.monitor("C11 statement on the real runs (call log vs dataframe, verbatim scores, chained runs)", len(specs), fails)
     scen.shutdown_manager()
